@@ -306,7 +306,10 @@ pub(crate) fn run(opts: &Opts, report: &mut Report) {
             // any more) instead of re-requesting for ever: then the run is reported as not caught
             // up, and everything about blocks above the filtered height (not examined again after
             // the rollback) is a consequence of that wait, not another defect.
-            if !cause.is_empty() && bad.iter().any(|(c, _)| c == "not-caught-up") {
+            // (the same holds when the wait shows as endless re-requesting - the proofs of the
+            // abandoned blocks are asked for again and again since the kept record is no longer
+            // marked proved - instead of coming to rest: "stall" with that cause)
+            if !cause.is_empty() && bad.iter().any(|(c, _)| c == "not-caught-up" || c == "stall") {
                 // The sync waits for the stale record for good. What the index lacks (or still
                 // holds as live) then only says where the wait caught it - possibly in the middle
                 // of a record (a block indexed, the scripts' numbers not yet moved): completeness
